@@ -395,9 +395,10 @@ func runReplset(w *World) {
 				}
 				if !found && v.commitId > cfgCommit {
 					class := "leader_without_commit_majority"
-					if m.inc > 1 && m.everLeader {
-						// F48: a former leader that restarted from its saved metadata
-						class = "restarted_leader_without_commit_majority"
+					if m.everLeader {
+						// F48: a former leader (restarted from its saved metadata, or one that has quit the
+						// lead) is put back by a stale picture of the set, without an election
+						class = "former_leader_without_commit_majority"
 					}
 					w.violate("C12", class, "member %s (node n%d, start %d) became leader with committed number %d: %d of %d members have committed that number for it (a majority is %d) and no other number that a majority has committed for it is left unused by its earlier spells as leader", m.host, m.node.id, m.inc, v.commitId, cnt, len(ms), need)
 				}
@@ -842,6 +843,10 @@ func runReplset(w *World) {
 					// file index and offset that log is the longest, so it wins the next election
 					// although it belongs to an abandoned history (finding F68)
 					w.violate("C12", "quorum_acked_lock_lost_to_returned_leader", "lock %s was answered SUCCED after a quorum had acknowledged it, was never released and its term has not passed, but the leader %s (node n%d), a member that was killed while it was the leader and has been elected again, does not hold it", r, l.host, l.node.id)
+				} else if nArb, nData := arbiterCount(body.Members); !held && len(body.Members)/2+1-nArb < nData/2+1 {
+					// F81: the election majority counts arbiters, the acknowledgement quorum is a majority of
+					// the data members: with this mix the two need not share a data member
+					w.violate("C12", "quorum_acked_lock_lost_majority_by_arbiters", "lock %s was answered SUCCED after a quorum had acknowledged it, was never released and its term has not passed, but the leader %s (node n%d) does not hold it; the set has %d data members and %d arbiters, so a majority of the members need not contain a majority of the data members", r, l.host, l.node.id, nData, nArb)
 				} else if !held {
 					w.violate("C12", "quorum_acked_lock_lost", "lock %s was answered SUCCED after a quorum had acknowledged it, was never released and its term has not passed, but the leader %s (node n%d) does not hold it", r, l.host, l.node.id)
 					return
@@ -884,4 +889,15 @@ func init() {
 		Kind   string
 		Weight int
 	}{"replset", 1})
+}
+
+func arbiterCount(ms []RSMember) (arbiters, data int) {
+	for _, m := range ms {
+		if m.Arbiter != 0 {
+			arbiters++
+		} else {
+			data++
+		}
+	}
+	return
 }
